@@ -121,7 +121,7 @@ class Lex:
         if rng.random() < 0.3:
             s = s.replace(".", ",")
         if rng.random() < 0.15 and places == 0:
-            s = s + rng.choice([".", ","])[:0]
+            s = s + rng.choice([".", ","])  # "100." / "100," - digits with a separator and nothing after it
         sign = rng.choice(["", "", "+", "-"])
         text = sign + s
         val = R.parse_decimal(text)
@@ -382,7 +382,40 @@ def run_shard(ctx):
             data = one_document(ctx, lex, name, cls, f"C03/{ctx.seed}/{name}/{p}")
             if data and p == 1 and ci % 50 == 0:
                 ctx.sample({"cls": name, "document_tail": data.decode("utf_8")[-400:]})
+    charset_documents(ctx)
     online.flush(ctx)
+
+
+def charset_documents(ctx, only=None):
+    """Character data of version-1 files in each declared character set, written by the harness byte for byte: the value in
+    the model is the character the DECLARED set assigns to the byte (0x80-0x9F is where the single-byte sets differ)."""
+    from ofxtools.Parser import OFXTree
+
+    words = {"1252": ("cp1252", ["caf\u00e9 \u20ac5", "\u2018q\u2019 \u2013 \u2122", "\u0161\u0178\u0152", "na\u00efve \u00ff"]),
+             "ISO-8859-1": ("latin_1", ["caf\u00e9 \u00a35", "\u00a1\u00bf\u00ff", "x\u0085y\u0091z\u009f", "na\u00efve"]),
+             "NONE": ("utf_8", ["caf\u00e9 \u20ac5", "\u6c49\u5b57 \U0001f600", "\u2018q\u2019", "e\u0301"])}
+    for cs, (codec, ws) in words.items():
+        for wi, word in enumerate(ws):
+            if only is not None and only != [cs, wi]:
+                continue
+            hdr = ("OFXHEADER:100\r\nDATA:OFXSGML\r\nVERSION:102\r\nSECURITY:NONE\r\nENCODING:%s\r\nCHARSET:%s\r\nCOMPRESSION:NONE\r\nOLDFILEUID:NONE\r\nNEWFILEUID:NONE\r\n\r\n"
+                   % ("USASCII" if cs != "NONE" else "UNICODE", cs))
+            body = ("<OFX><SIGNONMSGSRSV1><SONRS><STATUS><CODE>0<SEVERITY>INFO<MESSAGE>%s</STATUS><DTSERVER>20200101120000<LANGUAGE>ENG<FI><ORG>%s</FI></SONRS></SIGNONMSGSRSV1></OFX>"
+                    % (word, word[:6].strip()))
+            data = hdr.encode("ascii") + body.encode(codec)
+            ctx.ev()
+            ctx.count("charset_documents")
+            case = {"charset_doc": [cs, wi]}
+            try:
+                t = OFXTree()
+                t.parse(io.BytesIO(data))
+                m = t.convert()
+                got = (m.signonmsgsrsv1.sonrs.status.message, m.signonmsgsrsv1.sonrs.fi.org)
+            except Exception as e:
+                ctx.violation(f"valid-document-rejected/charset-{cs}/{type(e).__name__}", f"CHARSET:{cs} document with {word!r}: {e!r}", case)
+                continue
+            if got != (word, word[:6].strip()):
+                ctx.violation(f"value-differs/string/charset-{cs}", f"CHARSET:{cs}: the document says {word!r}, the model holds {got[0]!r} (ORG {got[1]!r})", case)
 
 
 def replay(ctx, case):
@@ -390,5 +423,8 @@ def replay(ctx, case):
     classes = ref_decl.all_classes()
     online.set_ctx(ctx)
     online.install_init_monitor()
+    if case.get("charset_doc"):
+        charset_documents(ctx, only=case["charset_doc"])
+        return
     one_document(ctx, Lex(ctx, ctx.rng), case["cls"], classes[case["cls"]], case["seedstr"])
     online.flush(ctx)
